@@ -475,3 +475,165 @@ func runT8(c *load.Ctx, r *report.RuleResult) {
 		}
 	}
 }
+
+func init() {
+	register(&Rule{ID: "T14", Min: 10, Run: runT14,
+		Doc: "ValidateLiteralValue: every LiteralValidator rule of the node is run exactly once on the document literal, except that a null admitted by nullable:true is accepted without running any other rule (whatever rules are present)"})
+}
+
+// literalValidatorImpls: constraint struct types implementing constraint.LiteralValidator.
+func literalValidatorImpls(c *load.Ctx) []*types.Named {
+	p := c.Pkg(pkgConstraint)
+	if p == nil {
+		return nil
+	}
+	itn, _ := p.Types.Scope().Lookup("LiteralValidator").(*types.TypeName)
+	if itn == nil {
+		return nil
+	}
+	iface, _ := itn.Type().Underlying().(*types.Interface)
+	var out []*types.Named
+	for _, named := range constraintImpls(c) {
+		if types.Implements(named, iface) || types.Implements(types.NewPointer(named), iface) {
+			out = append(out, named)
+		}
+	}
+	return out
+}
+
+func runT14(c *load.Ctx, r *report.RuleResult) {
+	e := newAbsNodeEnv(c)
+	if e.problem != "" {
+		r.Unk("anchor|schema.Node", "", e.problem)
+		return
+	}
+	fn := c.Func(pkgValidator, "ValidateLiteralValue")
+	setFn := c.Func(pkgSchema, "Constraints.Set")
+	cne := c.Func(pkgValidator, "checkNotAnEnum")
+	consT := namedType(c, pkgSchema, "Constraints")
+	if fn == nil || setFn == nil || consT == nil {
+		r.Unk("anchor|validator.ValidateLiteralValue", "", "ValidateLiteralValue / Constraints.Set not found")
+		return
+	}
+	pos := c.Pos(fn.Pos())
+	if cne != nil {
+		e.cfg.Opaque[cne.String()] = true // the kind check is table T7
+	}
+	e.cfg.Intrinsics["sort.Ints"] = func(in *pe.Interp, args []pe.Value) (pe.Value, bool) {
+		elems, ok := pe.SliceElems(args[0])
+		if !ok {
+			return nil, false
+		}
+		for i := 1; i < len(elems); i++ {
+			for j := i; j > 0; j-- {
+				a, ok1 := elems[j-1].(int64)
+				b, ok2 := elems[j].(int64)
+				if !ok1 || !ok2 {
+					return nil, false
+				}
+				if a > b {
+					elems[j-1], elems[j] = elems[j], elems[j-1]
+				}
+			}
+		}
+		return nil, true
+	}
+	for _, op := range []string{"Lock", "Unlock", "RLock", "RUnlock"} {
+		e.cfg.Intrinsics["(*sync.RWMutex)."+op] = func(in *pe.Interp, args []pe.Value) (pe.Value, bool) { return nil, true }
+	}
+	validators := literalValidatorImpls(c)
+	typeOf := map[*types.Named]*constraintInfo{}
+	for _, ci := range e.byVal {
+		if ci.named != nil {
+			typeOf[ci.named] = ci
+		}
+	}
+	// every Validate is observed, not interpreted
+	for _, v := range validators {
+		v := v
+		if f := c.Func(pkgConstraint, v.Obj().Name()+".Validate"); f != nil {
+			e.cfg.Intrinsics[f.String()] = func(in *pe.Interp, args []pe.Value) (pe.Value, bool) {
+				in.Effect("validate " + v.Obj().Name() + "(" + pe.Show(args[1]) + ")")
+				return nil, true
+			}
+		}
+	}
+	nullableCI := e.byName["NullableConstraintType"]
+	if nullableCI == nil || nullableCI.named == nil {
+		r.Unk("anchor|constraint.Nullable", pos, "nullable constraint type not found")
+		return
+	}
+	prefix := "invoke:" + types.TypeString(e.nodeT, nil) + "."
+	for _, v := range validators {
+		ci := typeOf[v]
+		if ci == nil {
+			r.Unk("anchor|"+v.Obj().Name(), pos, "constraint type constant of "+v.Obj().Name()+" not resolved")
+			continue
+		}
+		e.cfg.Intrinsics[prefix+"ConstraintMap"] = func(in *pe.Interp, args []pe.Value) (pe.Value, bool) {
+			m := in.NewStruct(consT, "constraints")
+			add := func(ci *constraintInfo, fields map[string]pe.Value) {
+				st := ci.named.Underlying().(*types.Struct)
+				sv := &pe.StructV{T: ci.named, F: make([]pe.Value, st.NumFields())}
+				for i := 0; i < st.NumFields(); i++ {
+					if fv, ok := fields[st.Field(i).Name()]; ok {
+						sv.F[i] = fv
+					} else {
+						sv.F[i] = pe.NewSym(ci.named.Obj().Name()+"."+st.Field(i).Name(), st.Field(i).Type())
+					}
+				}
+				obj := &pe.Iface{T: types.NewPointer(ci.named), V: &pe.Ptr{Obj: in.NewObj(ci.named, sv, ci.named.Obj().Name()), T: ci.named}}
+				in.Call(setFn, []pe.Value{m, ci.val, obj})
+			}
+			switch in.Choose("nullable", []string{"absent", "true", "false"}) {
+			case 1:
+				add(nullableCI, map[string]pe.Value{"value": true})
+			case 2:
+				add(nullableCI, map[string]pe.Value{"value": false})
+			}
+			add(ci, nil)
+			return m, true
+		}
+		outs := pe.ExploreFn(e.cfg, func(in *pe.Interp) pe.Value {
+			return in.Call(fn, []pe.Value{pe.NewSym("node", e.nodeT), pe.NewSym("value", fn.Params[1].Type())})
+		})
+		for _, o := range outs {
+			val := o.ChoiceMap()
+			isNull := "-"
+			for n, l := range val {
+				if strings.HasPrefix(n, "eq(") && strings.Contains(n, `"null"`) {
+					isNull = l
+				}
+			}
+			key := fmt.Sprintf("literal|rule=%s|nullable=%s|value-is-null=%s", v.Obj().Name(), val["nullable"], isNull)
+			verdict, code := verdictOf(o)
+			if verdict == "undecided" || verdict == "crash" {
+				r.Unk(key, pos, verdict+": "+code)
+				continue
+			}
+			runs := 0
+			onValue := true
+			for _, ef := range o.Effects {
+				if strings.HasPrefix(ef, "validate "+v.Obj().Name()+"(") {
+					runs++
+					if !strings.Contains(ef, "‹value›") {
+						onValue = false
+					}
+				}
+			}
+			nullAdmitted := val["nullable"] == "true" && isNull == "true"
+			switch {
+			case val["nullable"] == "true" && isNull == "-":
+				r.Bad(key, pos, "with nullable:true the rules are run without asking whether the value is null: "+fmt.Sprint(o.Effects))
+			case nullAdmitted && runs != 0:
+				r.Bad(key, pos, fmt.Sprintf("a null admitted by nullable:true is still checked against %s (the rule then rejects it)", v.Obj().Name()))
+			case !nullAdmitted && runs != 1:
+				r.Bad(key, pos, fmt.Sprintf("the rule %s is run %d times on this path; every rule of the node must be run exactly once", v.Obj().Name(), runs))
+			case !onValue:
+				r.Bad(key, pos, "the rule is not run on the document literal: "+fmt.Sprint(o.Effects))
+			default:
+				r.OK(key, pos, fmt.Sprintf("%d run(s)", runs))
+			}
+		}
+	}
+}
